@@ -321,33 +321,45 @@ func c07Set(ctx *core.Ctx, i int, fs gen.FileSet, thorough bool) {
 }
 
 func mergeSets(thorough bool) []gen.FileSet {
-	if thorough {
-		// the quick sets first, then deeper sets over the conflict-relevant sub-menu of 7 declarations
-		out := gen.FileSets(2, 2, true)
-		out = append(out, gen.FileSets(3, 1, false)...)
-		out = append(out, gen.FileSetsCore(3, 2)...)
-		out = append(out, gen.FileSetsCore(2, 3)...)
-		return out
-	}
-	out := gen.FileSets(2, 2, true)
-	// a slice of the three-file space in quick mode
-	three := gen.FileSets(3, 1, false)
-	out = append(out, three...)
+	var out []gen.FileSet
+	forMergeSets(thorough, nil, func(_ int, fs gen.FileSet) { out = append(out, fs) })
 	return out
 }
 
-func c07Run(ctx *core.Ctx) {
-	for i, fs := range mergeSets(ctx.Thorough()) {
-		if !ctx.Mine(i) {
-			continue
+// forMergeSets streams the file sets of a tier (numbered consecutively); a set is built only if want(i).
+// quick: 2 x <= 2 (with malformed members) and 3 x <= 1; thorough adds 3 x <= 2 and 2 x <= 3 over the conflict-relevant sub-menu.
+func forMergeSets(thorough bool, want func(i int) bool, f func(i int, fs gen.FileSet)) {
+	base := 0
+	shift := func(w func(int) bool) func(int) bool {
+		if w == nil {
+			return nil
 		}
+		b := base
+		return func(i int) bool { return w(b + i) }
+	}
+	emit := func() func(int, gen.FileSet) {
+		b := base
+		return func(i int, fs gen.FileSet) { f(b+i, fs) }
+	}
+	base += gen.FileSetsEach(2, 2, true, shift(want), emit())
+	base += gen.FileSetsEach(3, 1, false, shift(want), emit())
+	if thorough {
+		base += gen.FileSetsCoreEach(3, 2, shift(want), emit())
+		base += gen.FileSetsCoreEach(2, 3, shift(want), emit())
+	}
+}
+
+func c07Run(ctx *core.Ctx) {
+	capped := false
+	forMergeSets(ctx.Thorough(), func(i int) bool { return ctx.Mine(i) && !capped }, func(i int, fs gen.FileSet) {
 		if ctx.Expired() {
 			ctx.Cap("wall-clock cap: not all file sets merged")
+			capped = true
 			return
 		}
 		ctx.Eval(1)
 		c07Set(ctx, i, fs, ctx.Thorough())
-	}
+	})
 }
 
 func replayMerge(c json.RawMessage) (*mergeCase, []renderedFile) {
